@@ -1,0 +1,17 @@
+//go:build verif
+
+package runtime
+
+// NewVerifVMEnvironment returns a VM environment whose compiler runs with
+// peephole optimizations switched on or off. Verification hook (build tag
+// `verif`): the runtime offers no public way to enable peephole optimizations.
+func NewVerifVMEnvironment(config Config, script bool, peephole bool) Environment {
+	var env *vmEnvironment
+	if script {
+		env = NewScriptVMEnvironment(config).(*vmEnvironment)
+	} else {
+		env = NewBaseVMEnvironment(config)
+	}
+	env.compilerConfig.PeepholeOptimizationsEnabled = peephole
+	return env
+}
